@@ -1,0 +1,42 @@
+//go:build verif
+
+// Copyright 2024 Contributors to the Veraison project.
+// SPDX-License-Identifier: Apache-2.0
+
+package psatoken
+
+import cose "github.com/veraison/go-cose"
+
+// VerifMessage exposes the COSE_Sign1 envelope held by the Evidence so that
+// the verification harness can project it (payload, protected header,
+// signature). Only compiled with the "verif" build tag.
+func (e *Evidence) VerifMessage() *cose.Sign1Message {
+	return e.message
+}
+
+// VerifRegisterEntry describes one entry of the profile register.
+type VerifRegisterEntry struct {
+	Name    string
+	Profile IProfile
+	JSONTag string
+}
+
+// VerifRegisterSnapshot returns a copy of the current profile register. Only
+// compiled with the "verif" build tag.
+func VerifRegisterSnapshot() []VerifRegisterEntry {
+	ret := make([]VerifRegisterEntry, 0, len(profilesRegister))
+	for name, entry := range profilesRegister {
+		ret = append(ret, VerifRegisterEntry{Name: name, Profile: entry.Profile, JSONTag: entry.JSONTag})
+	}
+	return ret
+}
+
+// VerifRegisterRestore replaces the profile register with the supplied
+// snapshot, so that register histories can be replayed repeatedly in one
+// process. Only compiled with the "verif" build tag.
+func VerifRegisterRestore(snapshot []VerifRegisterEntry) {
+	profilesRegister = make(map[string]profileEntry, len(snapshot))
+	for _, e := range snapshot {
+		profilesRegister[e.Name] = profileEntry{Profile: e.Profile, JSONTag: e.JSONTag}
+	}
+}
